@@ -607,6 +607,72 @@ def r5_ports(L, repo, force_shape=False):
          [lit_fmt(guard_literals(cfg, r)) for r in raises], ok)
 
 
+def _r6_fold(L, repo):
+    """Application.append_trx / append_child_trx folded with the FakeTRX constructor and the transceiver lists as
+    recording oracles, for the keyword sets the application itself uses (BTS, MS with child_mgt=False, --trx
+    definitions with and without a child index): every keyword given to the helper reaches the constructor unchanged,
+    parents get the shared clock generator, children none, and the new transceiver is registered in the global list
+    (children also in their parent's).  -> False when the code leaves the evaluator's vocabulary"""
+    from consteval import Ev, Unknown, Raised, Opaque
+    FF = rel("fake_trx")
+    ci = repo.need_class("fake_trx", "Application")
+    c1, at = repo.need_method("fake_trx", "Application", "append_trx")
+    c2, act = repo.need_method("fake_trx", "Application", "append_child_trx")
+    R, P = Opaque("REMOTE"), 5700
+    rows = []
+
+    def run(fd, kw, parent_found=True):
+        made, adds = [], []
+
+        def mk(a, k):
+            made.append((tuple(a), dict(k)))
+            return Opaque("TRX%d" % len(made))
+        mk.wants_kw = True
+        env = {"self.argv.trx_bind_addr": Opaque("BIND"), "self.clck_gen": Opaque("CLCK"), "self.fake_pm": Opaque("PM")}
+        e = Ev(repo, ci.mod, env=env, self_cls=ci)
+        e.ignore_calls = ("log.", "logging.")
+        e.hooks = {"FakeTRX": mk,
+                   "self.trx_list.add_trx": lambda a: adds.append(("global", tuple(a))),
+                   "PARENT.child_trx_list.add_trx": lambda a: adds.append(("parent", tuple(a))),
+                   "self.trx_list.find_trx": lambda a: (Opaque("PARENT") if parent_found and tuple(a) == (R, P) else None)}
+        raised = None
+        try:
+            e.call_func(fd, ci.mod, e._bindargs(fd, ["<self>", R, P], dict(kw)), self_cls=ci)
+        except Raised as ex:
+            raised = ex.cls
+        return made, adds, raised
+    try:
+        for kw in ({"name": "BTS"}, {"name": "MS", "child_mgt": False}, {}, {"name": None, "child_idx": 0}):
+            rows.append(("append_trx", kw, run(at, kw),
+                         ([((Opaque("BIND"), R, P), dict(kw, clck_gen=Opaque("CLCK"), pwr_meas=Opaque("PM")))], [("global", (Opaque("TRX1"),))], None)))
+        for kw in ({"name": "X", "child_idx": 2}, {"child_idx": 1}):
+            rows.append(("append_child_trx", kw, run(act, kw),
+                         ([((Opaque("BIND"), R, P), dict(kw, pwr_meas=Opaque("PM")))], sorted([("global", (Opaque("TRX1"),)), ("parent", (Opaque("TRX1"),))]), None)))
+        kw = {"name": "Y", "child_idx": 0}
+        rows.append(("append_child_trx", kw, run(act, kw),
+                     ([((Opaque("BIND"), R, P), dict(kw, clck_gen=Opaque("CLCK"), pwr_meas=Opaque("PM")))], [("global", (Opaque("TRX1"),))], None)))
+        kw = {"child_idx": 3}
+        rows.append(("append_child_trx (no parent)", kw, run(act, kw, parent_found=False), ([], [], "IndexError")))
+    except Unknown:
+        return False
+    # keywords spelled out with the value the transceiver's constructor would default to are no keywords at all
+    dflt = {}
+    for modn, cn in (("transceiver", "Transceiver"), ("fake_trx", "FakeTRX")):
+        cc, ii = repo.need_method(modn, cn, "__init__")
+        for c in calls_in(ii):
+            if canon(c.func) == "kwargs.get" and len(c.args) == 2 and isinstance(c.args[0], ast.Constant) and isinstance(c.args[1], ast.Constant):
+                dflt.setdefault(c.args[0].value, c.args[1].value)
+
+    def norm(made):
+        return [(a, {k: v for k, v in kw_.items() if not (k in dflt and v == dflt[k] and type(v) is type(dflt[k]))}) for a, kw_ in made]
+    for title, kw, got, want in rows:
+        got = (norm(got[0]), sorted(got[1]), got[2])
+        want = (norm(want[0]), want[1], want[2])
+        L.require("C12.R6", FF, "Application." + title.split(" ")[0], "%s(remote, port, %s): constructor arguments, registrations, outcome" % (
+            title, ", ".join("%s=%r" % kv for kv in sorted(kw.items()))), (want[0], sorted(want[1]), want[2]), got)
+    return True
+
+
 def r6_wiring(L, repo):
     FF = rel("fake_trx")
     L.unit(FF)
@@ -627,7 +693,16 @@ def r6_wiring(L, repo):
     cg = st.get("self.clck_gen", "")
     L.ob("C12.R6", FF, fn, "shared clock generator starts with an empty link list", "CLCKGen([], ...)", cg,
          cg.startswith("CLCKGen([]"))
-    # append_trx: shared clock; append_child_trx: no clock, both lists
+    # append_trx: shared clock; append_child_trx: no clock, both lists - decided by folding both helpers; the shape rules
+    # below are the structural record (or the deciding rules when the helpers do not fold)
+    if _r6_fold(L, repo):
+        L.structural("C12.R6 shape of append_trx / append_child_trx", _r6_shape, L, repo)
+    else:
+        _r6_shape(L, repo)
+
+
+def _r6_shape(L, repo):
+    FF = rel("fake_trx")
     ci, at = repo.need_method("fake_trx", "Application", "append_trx")
     ctor = find_calls(at, name="FakeTRX")
     L.require("C12.R6", FF, "Application.append_trx", "FakeTRX constructions", 1, len(ctor))
